@@ -108,8 +108,31 @@ def one(rec, t, ti, name, obj, j, rng):
             if not isinstance(v, tuple):
                 case["xml"] = t.files
                 rec.violation("array-not-tuple", "tree %d %s.%s is %s, not tuple (built from %s)" % (ti, name, pname, type(v).__name__, ["list", "tuple", "generator", "list-or-bytearray"][form]), case)
+    def snapshot(x):
+        out = [repr(x), getattr(x, "byte_size", None)]
+        for pn, _ins in br.params(obj.cls):
+            try:
+                out.append(repr(getattr(x, pn)))
+            except Exception as e:
+                out.append("raises " + type(e).__name__)
+        return out
+    snap0 = snapshot(inst)
     b1 = serialize(t, C, inst)
     b2 = serialize(t, C, inst)
+    # every public method of the instance / class is exercised; none of them may change what the instance shows
+    for meth in ("write", "family", "action", "__repr__", "__str__", "__hash__"):
+        f = getattr(inst, meth, None)
+        if callable(f):
+            try:
+                f(t.EoWriter()) if meth == "write" else f()
+            except Exception:
+                pass
+    rec.count("public-method-snapshots")
+    snap1 = snapshot(inst)
+    if snap1 != snap0:
+        diff = next((i for i, (a, b) in enumerate(zip(snap0, snap1)) if a != b), 0)
+        case["xml"] = t.files
+        rec.violation("changed-by-public-method", "tree %d %s: calling serialize / write / family / action / repr changed the instance: %s -> %s" % (ti, name, snap0[diff][:120], snap1[diff][:120]), case)
     rec.count("double-serializations")
     if b1 != b2:
         case["xml"] = t.files
